@@ -242,7 +242,7 @@ func ruleCache2(c *Ctx) {
 					c.Ok(key, c.Pos(in), "allowed evictor: "+why)
 					continue
 				}
-				if name == "lib/query.cacheViewFromFile" {
+				if exceptionOwner(p, fn, []string{"lib/query.cacheViewFromFile"}) != "" {
 					if bad := evictWithoutRepublish(c, in); bad != "" {
 						c.Bad(key, c.Pos(in), "lock-upgrade arm: "+bad+" — the table would silently drop out of the cache and be re-read from the file, losing the transaction's uncommitted changes")
 					} else {
